@@ -373,6 +373,12 @@ class Ctx:
         os.makedirs(os.path.join(WORK, "replay"), exist_ok=True)
         os.makedirs(os.path.join(ROOT, "evidence"), exist_ok=True)
         wall = time.time() - self.t0
+        # safety net: an obligation that failed after the check took its decision (e.g. coqchk in
+        # the thorough tier) must still turn the run red
+        if self.broken() and not self.violations:
+            self.violation({"broken_obligations": [(o[0], o[2][:1500]) for o in self.broken()],
+                            "note": "an obligation no longer checks and no failing input was recorded"},
+                           no_input=True)
         for fid, text in self.known:
             print("KNOWN-FINDING: property=%s %s" % (self.prop, text), flush=True)
         rc = 0
